@@ -363,6 +363,7 @@ func checkC10(r *core.Run) {
 	e.run([]string{"pkg/bondmachine", "cmd/bondmachine", "pkg/bmbuilder", "pkg/bondgo", "pkg/basm"}, func(pk *packages.Package, fd *ast.FuncDecl) bool {
 		return e.storesTopology(pk, fd) || callsTopologyEditor(pk, fd)
 	})
+	c10Compact(r, prog)
 }
 
 // freshMachines: locals initialised with a newly allocated Bondmachine in this function.
